@@ -289,6 +289,22 @@ func (f *Frame) stdModel(in ssa.Instruction, callee *ssa.Function, cc *ssa.CallC
 	case "(*sync.Mutex).Lock", "(*sync.Mutex).Unlock", "(*sync.RWMutex).Lock", "(*sync.RWMutex).Unlock", "(*sync.RWMutex).RLock", "(*sync.RWMutex).RUnlock":
 		c.note("assumed", "mutex operations are no-ops: contracts of lock-protected code hold only if the lock discipline excludes interference")
 		return nil, true
+	case "(*bufio.Reader).ReadByte":
+		c.note("assumed", "assumed contract: bufio.Reader.UnreadByte succeeds when the most recent reader operation was a successful ReadByte (ghost flag canUnread)")
+		res := f.freshResults(cc, st, "ReadByte")
+		g := c.heapGet(st, ghostCanUnread, ArrSort(SInt, SBool))
+		c.setHeap(st, ghostCanUnread, c.define("ghost", Store(g, args[0][0], Eq(res[1], IntLit(0)))))
+		return res, true
+	case "(*bufio.Reader).UnreadByte":
+		res := f.freshResults(cc, st, "UnreadByte")
+		g := c.heapGet(st, ghostCanUnread, ArrSort(SInt, SBool))
+		st.assume(c, Implies(Select(g, args[0][0]), Eq(res[0], IntLit(0))))
+		c.setHeap(st, ghostCanUnread, c.define("ghost", Store(g, args[0][0], TFalse)))
+		return res, true
+	case "(*bufio.Reader).Peek", "(*bufio.Reader).Read", "(*bufio.Reader).Discard", "(*bufio.Reader).Reset", "(*bufio.Reader).ReadString", "(*bufio.Reader).ReadBytes", "(*bufio.Reader).ReadLine", "(*bufio.Reader).ReadRune", "(*bufio.Reader).WriteTo", "(*bufio.Reader).ReadSlice":
+		g := c.heapGet(st, ghostCanUnread, ArrSort(SInt, SBool))
+		c.setHeap(st, ghostCanUnread, c.define("ghost", Store(g, args[0][0], TFalse)))
+		return nil, false // fall through to the generic treatment of the call
 	case "strings.ToUpper", "strings.ToLower", "strings.TrimSpace":
 		r := c.fresh(callee.Name(), SStr)
 		c.note("assumed", "assumed contract: "+name+" (result unconstrained)")
@@ -339,3 +355,5 @@ func (c *Ctx) timeInstant(t Term) Term {
 	}
 	return app(SInt, "time_instant", t)
 }
+
+const ghostCanUnread = "G|bufio.canUnread"
